@@ -79,6 +79,10 @@ def extra_items():
                  "Hf%d::take" % i, "struct field %s (input and returned)" % fty)
     combos = [("getter+setter same name", '        #[diplomat::attr(auto, getter = "val")]\n        pub fn get_val(&self) -> u8 { 0 }\n'
                '        #[diplomat::attr(auto, setter = "val")]\n        pub fn set_val(&mut self, v: u8) {}\n'),
+              ("STATIC getter+setter same name", '        #[diplomat::attr(auto, getter = "val")]\n        pub fn get_val() -> u8 { 0 }\n'
+               '        #[diplomat::attr(auto, setter = "val")]\n        pub fn set_val(v: u8) {}\n'),
+              ("STATIC setter declared before its getter", '        #[diplomat::attr(auto, setter = "val")]\n        pub fn set_val(v: En) {}\n'
+               '        #[diplomat::attr(auto, getter = "val")]\n        pub fn get_val() -> En { En::A }\n'),
               ("two getters and a setter", '        #[diplomat::attr(auto, getter = "a")]\n        pub fn a(&self) -> u8 { 0 }\n'
                '        #[diplomat::attr(auto, getter = "b")]\n        pub fn b(&self) -> En { En::A }\n'
                '        #[diplomat::attr(auto, setter = "b")]\n        pub fn set_b(&mut self, v: En) {}\n'),
